@@ -8,8 +8,10 @@ Representation choices (deviations from the Python text, all checked by correspo
 outputs):
 * a *verinfo* tuple `(seqnum, root_hash, IV, segsize, datalength, k, N, prefix, offsets_tuple)` is the
   structure `VerInfo`; byte strings are lists of byte values; `IV` is `none` for MDMF (Python `None`);
-  `offsets_tuple` (a tuple of `(name, offset)` pairs with a fixed name order per format) is the list of
-  its offsets.  Python's tuple comparison (used by `recoverable.sort()` and `max(recoverable_versions)`)
+  `offsets_tuple` (a tuple of `(name, offset)` pairs, compared pair by pair, name first) is the flat list
+  `[rank name₁, offset₁, rank name₂, offset₂, …]` with `rank` = position of the name in string order, so that
+  list order = Python's tuple order; note that the MDMF write proxy and the read proxy list the names in
+  different orders, so one version can occur under two verinfos in a real servermap.  Python's tuple comparison (used by `recoverable.sort()` and `max(recoverable_versions)`)
   is lexicographic; it is `VerInfo.le` = lexicographic order of `VerInfo.key`.
 * servers are numbers; `_known_shares` (dict `(server, shnum) ↦ (verinfo, timestamp)`) is an association
   list with dict semantics (`dictSet` replaces in place, else appends).  Timestamps are dropped: no
